@@ -70,6 +70,22 @@ Theorem C16_xdev_file : forall (L : hashlib) w path t p a s c d lm i st,
 Proof. exact verify_path_xdev. Qed.
 Print Assumptions C16_xdev_file.
 
+(* the same two errors in the other two walks (every update / create runs both): before anything in the directory is read or written *)
+Theorem C16_update_walks_raise : forall (L : hashlib) decompress pgp f w X rel nm hashes lm s ents dst,
+  p_scandir w X = Ok ents -> p_stat w X = Ok dst ->
+  (In (st_dev dst, st_ino dst) (match assoc (dirname X) (us_ids s) with Some x => x | None => [] end) ->
+   (match l_dev (us_l s) with Some d => negb (st_dev dst =? d) | None => false end) = false ->
+   walk_update L decompress pgp (S f) w X rel nm hashes lm s = Err (XSymlinkLoop X)) /\
+  (forall d, l_dev (us_l s) = Some d -> st_dev dst <> d ->
+   walk_update L decompress pgp (S f) w X rel nm hashes lm s = Err (XCrossDevice X)) /\
+  (forall l ids ed found, In (st_dev dst, st_ino dst) (match assoc (dirname X) ids with Some x => x | None => [] end) ->
+   (match l_dev l with Some d => negb (st_dev dst =? d) | None => false end) = false ->
+   walk_unreg L decompress pgp (S f) w l X rel ids ed found = Err (XSymlinkLoop X)) /\
+  (forall l ids ed found d, l_dev l = Some d -> st_dev dst <> d ->
+   walk_unreg L decompress pgp (S f) w l X rel ids ed found = Err (XCrossDevice X)).
+Proof. exact update_walks_raise. Qed.
+Print Assumptions C16_update_walks_raise.
+
 (* through the whole walk: when the verification of a directory - any relative path, the top directory '' included - returns (True or False, any handler), every directory it
    reached - from the start, through listed sub-directories that are not hidden and have no entry - has an identity
    (st_dev, st_ino) different from those of all the directories passed on the way to it: a symbolic link that leads back to one of
